@@ -1211,6 +1211,41 @@ fn gen_short_mp(rng: &mut Rng, four: bool) -> Vec<u8> {
 }
 
 /// session suffix of a PDU token and what it stands for
+/// one attribute of the (kind x length encoding) grid (found thin by tools/c17_attr_stats.py): `malformed` = a
+/// value the type's length rules refuse in a session of that AS number width; `enc`: 0 = one-octet length, 1 =
+/// EXTENDED_LEN on a value of at most 255 octets, 2 = a value of more than 255 octets; `None` where the cell
+/// does not exist (no well-formed value over 255 octets of a fixed-size kind, no malformed ATTR_SET over 255
+/// octets, no malformed value of the reserved type 255)
+fn grid_attr(rng: &mut Rng, code: u8, malformed: bool, enc: u8, four: bool) -> Option<Vec<u8>> {
+    let fixed = matches!(code, 1 | 3 | 4 | 5 | 6 | 7 | 9 | 18 | 20 | 21 | 35);
+    let val: Vec<u8> = if !malformed {
+        if enc == 2 {
+            if fixed { return None; }
+            match code {
+                2 if !four => { let mut v = vec![2u8, 130]; for _ in 0..130 { v.extend(rng.u16().to_be_bytes()); } v }
+                2 | 17 => { let t = *rng.pick(&[1u8, 2, 3, 4]); let mut v = vec![t, 70]; for _ in 0..70 { v.extend(rng.u32().to_be_bytes()); } v }
+                8 | 10 => { let k = rng.usize(64, 80); rng.bytes(4 * k) }
+                16 => { let k = rng.usize(33, 40); rng.bytes(8 * k) }
+                25 => { let k = rng.usize(13, 16); rng.bytes(20 * k) }
+                32 => { let k = rng.usize(22, 30); rng.bytes(12 * k) }
+                128 => { let k = rng.usize(260, 400); rng.bytes(4 + k) }
+                _ => { let k = rng.usize(256, 400); rng.bytes(k) }
+            }
+        } else { gen_val_w(rng, code, true, four) }
+    } else {
+        let lens: Vec<usize> = if enc == 2 { (256..330).collect() } else { (0..40).collect() };
+        let cand: Vec<usize> = lens.into_iter().filter(|&n| !ref_valid_w(code, &vec![0u8; n], four)).collect();
+        if cand.is_empty() { return None; }
+        let n = *rng.pick(&cand);
+        let mut v = rng.bytes(n);
+        if code == 2 || code == 17 { for x in v.iter_mut().take(2) { *x = 0; } }
+        v
+    };
+    if val.len() > 255 && enc != 2 { return None; }
+    if !malformed && !ref_valid_w(code, &val, four) { return None; }
+    Some(wire_attr(ref_flags(code).unwrap(), code, &val, enc != 0))
+}
+
 fn gen_sess(rng: &mut Rng) -> (&'static str, bool, bool) {
     match rng.below(10) { 0..=4 => ("", true, false), 5..=6 => ("2", false, false), 7..=8 => ("a", true, true), _ => ("2a", false, true) }
 }
@@ -1348,6 +1383,40 @@ impl Prop for C17 {
                         out.push(format!("ws wfu{sx}:m:{p} get:2 get:7 getc"));
                         out.push(format!("pm own{sx}:{p} fu{sx}:{p} get:2 get:7 rnt"));
                     }
+                }
+            }
+        }
+        // the grid: every typed kind x well formed / malformed x the three length encodings on input, plus
+        // unrecognised types with EXTENDED_LEN on a short value and with a long value, in the four session kinds,
+        // through the owned form, the map (+ remove_non_transitives) and the workshop
+        for (sx, f, _a) in [("", true, false), ("2", false, false), ("a", true, true), ("2a", false, true)] {
+            let frame = |attrs: &[u8]| -> String {
+                let len = 23 + attrs.len();
+                let mut p = vec![0xffu8; 16];
+                p.extend((len as u16).to_be_bytes()); p.push(2); p.extend([0, 0]);
+                p.extend((attrs.len() as u16).to_be_bytes()); p.extend_from_slice(attrs);
+                hex(&p)
+            };
+            for c in TYPED {
+                for malformed in [false, true] {
+                    for enc in 0..3u8 {
+                        for k in 0..3 {
+                            if let Some(a) = grid_attr(rng, c, malformed, enc, f) {
+                                let mut attrs = if k == 2 && c != 1 { wire_attr(0x40, 1, &[1], false) } else { vec![] };
+                                attrs.extend(a);
+                                let p = frame(&attrs);
+                                out.push(format!("pm own{sx}:{p} fu{sx}:{p} get:{c} rnt"));
+                                if k == 0 { out.push(format!("ws wfu{sx}:m:{p} get:{c}")); }
+                            }
+                        }
+                    }
+                }
+            }
+            for &c in &UNIMPL_CODES[..6] {
+                for (n, ext) in [(0usize, true), (3, true), (255, true), (256, true), (600, true), (7, false)] {
+                    let fl = *rng.pick(&[0x80u8, 0xC0, 0x40, 0xE0, 0x00]);
+                    let p = frame(&wire_attr(fl, c, &rng.bytes(n), ext));
+                    out.push(format!("pm own{sx}:{p} fu{sx}:{p} rnt"));
                 }
             }
         }
